@@ -28,6 +28,8 @@ def _kinds(rec):
 def run_job(job):
     """one scenario, one schedule.  job = dict(family, seed, props, lockstep, schedule?, scen?)"""
     scen = job.get("scen") or sweep.gen_scenario(job["seed"], job["family"])
+    if job.get("futyield"):
+        scen = dict(scen, futyield=True)
     if job.get("schedule") is not None:
         pt = 0.15 if (scen.get("timeout") and job.get("tolerate_divergence")) else 0.0
         chooser = W.replay_chooser(job["schedule"], then=W.random_chooser(job["seed"], p_timeout=pt, p_crash=0.0))
@@ -102,6 +104,11 @@ def starving_chooser(seed):
     return factory
 
 
+# a quarter of the runs of these families also switch actors between two Future method calls of parent threads
+# (Future.cancel racing with the manager's dispatch, set_result racing with cancel, …): oracle only, no lock-step
+FUTYIELD_FAMILIES = {"mixed", "notimeout", "contain", "concurrent", "callback", "timeouts", "break", "crash"}
+
+
 class E1Part:
     engine = "E1"
     name = "e1"
@@ -118,8 +125,10 @@ class E1Part:
         self.starve = starve                # share of runs with the body-starving scheduler
         self.name = name
         self.assumptions = [
-            "E1 switches actors only at announced operations (semaphore, pipe, wait, start/join, kill, body, API boundaries): "
-            "races between two pure-Python statements of threads of the parent are outside the model and the engine",
+            "E1 switches actors only at announced operations (semaphore, pipe, wait, start/join, kill, body, API boundaries; "
+            "in a quarter of the runs also before every Future method call of a parent thread — those runs are judged by "
+            "the oracles only, M1 keeps each Future call atomic with its neighbouring operation): "
+            "other races between two pure-Python statements of threads of the parent are outside the model and the engine",
             "pickling is real; pipes are unbounded message lists; time is adversarial (a time-out can fire whenever the awaited condition is false)",
             "an executor caught in a reference cycle (e.g. after submit() raised the stored BrokenProcessPool) is treated as never collected: cyclic GC is not modelled",
         ]
@@ -132,8 +141,9 @@ class E1Part:
         for fam, w in self.families:
             k = max(1, round(n * w / tot))
             for i in range(k):
-                jobs.append({"family": fam, "seed": base + i, "props": self.props,
-                             "lockstep": self.lockstep_on and fam in LOCKSTEP_FAMILIES,
+                fy = i % 4 == 2 and fam in FUTYIELD_FAMILIES
+                jobs.append({"family": fam, "seed": base + i, "props": self.props, "futyield": fy,
+                             "lockstep": self.lockstep_on and fam in LOCKSTEP_FAMILIES and not fy,
                              "starve_bodies": bool(self.starve and i % self.starve == 0
                                                    and fam in ("kill", "saturate", "saturateleak", "satreuse")),
                              "pct": i % 5 in (1, 3) and fam not in ("saturate",),
